@@ -49,21 +49,26 @@ def build(cfg, events):
             out[m] = {"case": case, "static": st, "trace": [], "prev_rep": {x["site"]: None for x in st},
                       "fu": []}
         elif tag == "request":
-            _, d, m, issued, q_after_take, plan = e
+            _, d, m, issued, q_after_take, plan = e[:6]
+            q0, puts = (e[6], e[7]) if len(e) >= 8 else (None, None)
             dt = start + timedelta(days=d)
             cur[m] = {"date": [dt.year, dt.month, dt.day], "day": d, "crash": None,
                       "issued": [int(x) for x in issued], "queue_after_take": _queue(q_after_take),
-                      "plan": [int(x) for x in plan], "surveys": {}, "n_taken": len(plan),
+                      "plan": [int(x) for x in plan], "surveys": {},
+                      "n_taken": len(plan) if (q0 is None or puts is None) else q0 + puts - len(q_after_take),
+                      "n_puts": puts,
                       "reports": sorted(int(x) for x in plan), "heap_ok": True}
         elif tag == "survey":
             d, m, site = e[1], e[2], int(e[3])
             if m in cur and cur[m]["day"] == d:
                 cur[m]["surveys"].setdefault(site, []).append(e)
         elif tag == "sstate":
-            _, d, m, q, flags, pls = e
+            _, d, m, q, flags, pls = e[:6]
             rec = cur.pop(m, None)
             if rec is None or m not in out:
                 continue
+            if len(e) >= 7 and e[6] is not None:
+                rec["reports"] = sorted(int(x) for x in e[6])
             info = out[m]
             rec["queue"] = _queue(q)
             kind = info["case"]["kind"]
@@ -106,6 +111,11 @@ def followup_oracle(ctx, prop, cfgkey, m, info):
         outs = {o[0]: o for o in rec["outcomes"]}
         if len(set(plan)) != len(plan):
             ctx.violate(prop + ":wholerun:site-twice-in-plan", f"follow-up plan {plan}", inp)
+        if sorted(rec["reports"]) != sorted(plan):
+            ctx.violate(prop + ":wholerun:report-missing", f"follow-up plan {plan}, reports of {rec['reports']}", inp)
+        if rec["n_taken"] != len(plan):
+            ctx.violate(prop + ":wholerun:popped-request-not-in-work-plan",
+                        f"{rec['n_taken']} follow-up requests popped, work plan holds {len(plan)}", inp)
         if len(set(after)) != len(after):
             ctx.violate(prop + ":wholerun:duplicate-outstanding", f"follow-up queue {after}", inp)
         for i in plan:
